@@ -26,6 +26,9 @@ import time
 import traceback
 
 VERIF = os.path.dirname(os.path.dirname(os.path.realpath(__file__)))
+# evidence/ and replays/ go to VERIF_OUT (default: /verif); used by the mutation harness so that
+# runs against scratch copies of the library never overwrite the committed evidence
+OUT = os.environ.get("VERIF_OUT", VERIF)
 NWORKERS = int(os.environ.get("VERIF_WORKERS", "16"))
 
 
@@ -221,7 +224,7 @@ def main(argv=None):
              if k.get("property") == prop and k.get("status") == "open"}
     exit_code = 0
     nviol = 0
-    rdir = os.path.join(VERIF, "replays", prop)
+    rdir = os.path.join(OUT, "replays", prop)
     for sig in sorted(merged.viol):
         what, case, detail, _ = merged.viol[sig]
         cnt = merged.viol_count[sig]
@@ -271,7 +274,7 @@ def main(argv=None):
         "wall_s": round(wall, 2),
         "violations": nviol,
     }
-    edir = os.path.join(VERIF, "evidence")
+    edir = os.path.join(OUT, "evidence")
     os.makedirs(edir, exist_ok=True)
     with open(os.path.join(edir, "%s.json" % prop), "w") as fh:
         json.dump(ev, fh, indent=1, default=repr, ensure_ascii=False)
